@@ -170,6 +170,33 @@ def _gen_http_headers(headers):
     return retval
 
 
+class _ResponseIterable(object):
+    """The body iterable handed to the WSGI server. Runs ``finalize`` exactly
+    once: when the body is exhausted or when the server calls ``close()``
+    (PEP 3333), whichever comes first -- never before."""
+
+    def __init__(self, body, finalize):
+        self.__body = iter(body)
+        self.__finalize = finalize
+
+    def __iter__(self):
+        return self
+
+    def __next__(self):
+        try:
+            return next(self.__body)
+        except StopIteration:
+            self.close()
+            raise
+
+    next = __next__
+
+    def close(self):
+        finalize, self.__finalize = self.__finalize, None
+        if finalize is not None:
+            finalize()
+
+
 class WsgiTransportContext(HttpTransportContext):
     """The class that is used in the transport attribute of the
     :class:`WsgiMethodContext` class."""
@@ -369,11 +396,7 @@ class WsgiApplication(HttpBase):
                                                     str(len(ctx.transport.wsdl))
         start_response(HTTP_200, _gen_http_headers(ctx.transport.resp_headers))
 
-        retval = ctx.transport.wsdl
-
-        ctx.close()
-
-        return [retval]
+        return _ResponseIterable([ctx.transport.wsdl], ctx.close)
 
     def handle_error(self, p_ctx, others, error, start_response):
         """Serialize errors to an iterable of strings and return them.
@@ -406,7 +429,8 @@ class WsgiApplication(HttpBase):
             # Report but ignore any exceptions from auxiliary methods.
             logger.exception(e)
 
-        return chain(p_ctx.out_string, self.__finalize(p_ctx))
+        return _ResponseIterable(p_ctx.out_string,
+                                               lambda: self.__finalize(p_ctx))
 
     def handle_rpc(self, req_env, start_response):
         initial_ctx = WsgiMethodContext(self, req_env,
@@ -504,7 +528,8 @@ class WsgiApplication(HttpBase):
         start_response(p_ctx.transport.resp_code,
                                 _gen_http_headers(p_ctx.transport.resp_headers))
 
-        retval = chain(p_ctx.out_string, self.__finalize(p_ctx))
+        retval = _ResponseIterable(p_ctx.out_string,
+                                               lambda: self.__finalize(p_ctx))
 
         try:
             process_contexts(self, others, p_ctx, error=None)
